@@ -25,6 +25,7 @@ def parseEv (t : String) : Option (Option Ev) :=
   | ["Mv", _, _] => some none
   | ["End", _, _] => some none
   | "Fr" :: _ => some none
+  | "Fq" :: _ => some none
   | ["Wbad"] => some none
   | _ => none
 
